@@ -56,8 +56,42 @@ def run(tier, seed, rng):
             for fd in pc['fields']:
                 if fd['body'][0] == 'seq' and fd['body'][6] is not None:
                     fd['body'] = fd['body'][:6] + (None,)
-    records, disagreements = pktcases.run_groups(groups, 'c14')
-    rts = [r for r in records if r['kind'] == 'roundtrip' and r.get('source') is not None]
+    # ---- regular expressions outside the modelled class (look-behind, word boundaries, anchors): implementation-only groups.
+    # Their match must not depend on what precedes the field either.
+    import itertools
+    zoo = [rb'(?<!\\);', rb'\bX', rb'^a', rb'(?<=a);', rb'X\b', rb'(?m)^;', rb'\B;', rb'(?<![a-z])X']
+    alpha = [0x61, 0x3b, 0x5c, 0x58, 0x20]
+    zgroups = []
+    for zi, pat in enumerate(zoo):
+        for incl in (True, False):
+            table = {0: dict(end=None, align=None, sbl=None, gp=True, gu=True, vec=True, ann=True,
+                             fields=[{'move': None, 'body': ('elem', ('leaf', ('dregex_raw', pat, incl, b'')))},
+                                     {'move': None, 'body': ('elem', ('leaf', ('int', 1, False, None, 0)))}])}
+            G = pktcases.Group(table, 100000 + len(zgroups))
+            G.nomodel = True
+            bodies = [bytes(t) for L in range(0, 4) for t in itertools.product(alpha, repeat=L)]
+            if tier == 'quick':
+                bodies = bodies[:1] + rng.sample(bodies[1:], 40)
+            for body in bodies:
+                raw = body + b'\x07'
+                G.add_unpack(0, raw, 0)
+                for pre in ([bytes([a]) for a in alpha] + [b'a\\', b'X ']):
+                    G.add_unpack(0, pre + raw, len(pre))
+            zgroups.append(G)
+    records, disagreements = pktcases.run_groups(groups + zgroups, 'c14')
+    zrecs = [r for r in records if r['group'] >= 100000 and r['kind'] == 'roundtrip']
+    zfail = []
+    base = None
+    for r in zrecs:
+        if r['offset'] == 0:
+            base = r
+            continue
+        if base is None or not r['raw'].endswith(base['raw']) or r['group'] != base['group']:
+            continue
+        want = shift_outcome(base['outcome'], r['offset'])
+        if view(r['outcome']) != view(want):
+            zfail.append((base, r, want))
+    rts = [r for r in records if r['kind'] == 'roundtrip' and r.get('source') is not None and r['group'] < 100000]
     by_src = {}
     for r in rts:
         by_src.setdefault(r['source'], []).append(r)
@@ -107,7 +141,12 @@ def run(tier, seed, rng):
                     failures.append(dict(kind='oracle', sig='context-suffix', what='bytes appended after the parsed region changed a successful parse',
                                          classes=cls, cls=decl.cname(r['c']), raw=b['raw'].hex(), raw_with_context=r['raw'].hex(),
                                          offset=r['offset'], observed=view(orr), required=view(want)))
-    return dict(evaluations=len(records), distinct_nontrivial=dist['prefix_pairs'] + dist['suffix_pairs'],
+    dist['regex_zoo_pairs'] = sum(1 for r in zrecs if r['offset'] != 0)
+    for b, r, want in zfail[:20]:
+        failures.append(dict(kind='oracle', sig='context-prefix-regex', what='a regex-delimited field parses differently depending on the bytes BEFORE the start offset',
+                             classes=pktprops.class_source(zgroups, r['group']), cls='K0', raw=b['raw'].hex(), raw_with_context=r['raw'].hex(),
+                             offset=r['offset'], observed=view(r['outcome']), required=view(want)))
+    return dict(evaluations=len(records), distinct_nontrivial=dist['prefix_pairs'] + dist['suffix_pairs'] + dist['regex_zoo_pairs'],
                 rule=("random class tables without start-of-data positioning and without raw/offset callbacks; per consistent value: the encoding, "
                       "truncations, a flip; each then parsed again behind prefixes of 1, 3 and 6 arbitrary bytes (delimiter bytes included), with "
                       "arbitrary bytes appended, and both; also a truncated (failing) input behind a prefix; the implementation's outcomes are "
